@@ -23,8 +23,10 @@ HARNESSES = {
     "zone_conf_fast": {"srcs": ["src/harness/zone_conf.cc"], "variant": "plain"},
 }
 
+HARNESSES["civil_conf"] = {"srcs": ["src/harness/civil_conf.cc"], "variant": "asan"}
+
 SETUP_VARIANTS = ["asan", "plain"]
-SETUP_HARNESSES = ["zone_conf"]
+SETUP_HARNESSES = ["zone_conf", "civil_conf"]
 
 E1_LEVEL_NOTE = ("Trusted base: the reference model in /verif/src/common (128-bit calendar, RFC 9636 TZif reader, "
                  "POSIX TZ evaluator - written from the specifications, self-checked by a brute-force day walk), "
@@ -93,6 +95,38 @@ CHECKS = {
                    "Forward and backward chains are walked on the real library and compared element by element with the reference's list of real changes; point queries at every probe and at each chain element +-1.",
                    ["C11:chain-extended", "C11:chain-file-only", "C11:next:just-before", "C11:query-at-change", "C11:prev:has", "C11:prev:none"]),
 }
+
+def mk_civil(pid, title, rule, text, need):
+    def vac(res, tier):
+        missing = [c for c in need if not any(k.startswith(c) for k in res["classes"])]
+        if missing:
+            return "behaviour classes never hit: " + ", ".join(missing)
+        if res["counters"].get("evaluations", 0) < 1000000:
+            return "too few evaluations"
+        return None
+    return {
+        "title": title, "steps": [{"harness": "civil_conf", "args": []}], "level": "model_checking", "engine": "E1",
+        "technique": "bounded-exhaustive conformance checking against a 128-bit reference calendar (complete enumeration of the 146097-day cycle and of boundary-value products; UBSan as part of the oracle)",
+        "rule": rule, "design_ref": "DESIGN.md 3/" + pid, "text": text,
+        "level_note": "Trusted base: ref_civil.h (count-the-leap-days calendar in __int128, self-checked by a day-by-day walk over two Gregorian cycles), g++ 12, UBSan/ASan runtime. Exhaustive over the stated finite domains; other int64 tuples are covered only by the periodicity argument (400-year cycle) and the boundary alphabets.",
+        "assumptions": ["int_fast64_t is 64 bits", "the reference calendar is correct (self-check at start of every run)"],
+        "vacuity": vac, "budget": {"quick": 240, "thorough": 3000},
+    }
+
+
+CHECKS["C04"] = mk_civil("C04", "civil-time construction normalizes exactly",
+    "(a) every day of 2000-2399 x 3 times of day x complete product of per-field carries {0,+1,-1} on seconds/minutes/hours/months and month-shifts {0,1,-1} of the day field (mathematical value unchanged); (b) a reduced base set (month ends of the century/4-year boundaries) x carries {0,+-1,+-2,+-1000003[,+-2^31,+-97]}^4 x month shifts {0,+-1,13,-14}; (c) complete product of the 64-bit boundary alphabet (19 values quick / 26 thorough)^6 restricted to the stated representability bound; class = which generator produced the tuple; all six alignments and all cross-alignment conversions on a fixed subset",
+    "Every tuple is constructed in the real library (UBSan+ASan build) and compared with the 128-bit reference value; accessor ranges asserted; alignments and cross-alignment conversions compared with field truncation.",
+    ["C04:cycle-small", "C04:cycle-big", "C04:boundary-product"])
+CHECKS["C05"] = mk_civil("C05", "civil arithmetic and difference are exact inverses",
+    "every aligned value of the 146097-day cycle (day: all days; month: 4800; year: 400; hour/minute/second: every day x time of day) at eras {0, max, min [, +-1, -6, +-1e3]} x n in {0, +-(1,2,23..32,59..61,365,366,1460,1461,36524,36525,146096..146098,2*146097,2^31,2^62), INT64_MIN, INT64_MIN+1, INT64_MAX}; plus every day of the 3 first/last representable years; plus boundary-year x boundary-month/day difference product; unrepresentable results skipped and counted",
+    "a+n, a-n, (a+n)-a, a-(a+n), b+(a-b), ++/--/+=/-= and all six relational operators compared with the linear index of the reference calendar, for each of the six alignments.",
+    ["C05:add:day:era0", "C05:add:second:era-max", "C05:add:month:era-min", "C05:sub:year", "C05:add:day:extreme-year", "C05:diff-limit", "C05:cross-compare"])
+CHECKS["C17"] = mk_civil("C17", "weekday / yearday / next / prev weekday",
+    "all 146097 days of 2000-2399 x {get_weekday, get_yearday} and x 7 weekdays x {next_weekday, prev_weekday}, replicated at eras {0, -6, max, min [, -5, +1, +-1e3, +-1e9]} plus every day of years {INT64_MIN, INT64_MIN+1, INT64_MAX-1, INT64_MAX, -400..400 selected}",
+    "Exhaustive over the Gregorian cycle: weekday from the 128-bit day number anchored at 1970-01-01 = Thursday (successor law checked along the enumeration), year-day by subtraction, next/prev = unique day within 1..7 days.",
+    ["C17:era0:leap", "C17:era0:common", "C17:era-max", "C17:era-min", "C17:special-years"])
+
 # C10 always runs in the sanitizer build: the sanitizer is its oracle.
 CHECKS["C10"]["steps"] = lambda tier: [{"harness": "zone_conf", "args": []}]
 
